@@ -515,11 +515,12 @@ class Check:
             "violations": len(new),
         }
         os.makedirs(os.path.join(ROOT, "evidence"), exist_ok=True)
+        suffix = os.environ.get("VERIF_EVIDENCE_SUFFIX", "")  # maintainer runs against seeded changes keep the real evidence
         tmp = os.path.join(ROOT, "evidence", self.pid + ".json.tmp")
         with open(tmp, "w") as f:
             json.dump(ev, f, indent=1, sort_keys=True, default=str)
             f.write("\n")
-        os.replace(tmp, os.path.join(ROOT, "evidence", self.pid + ".json"))
+        os.replace(tmp, os.path.join(ROOT, "evidence", self.pid + suffix + ".json"))
         for key, v, hit in kf:
             print("KNOWN-FINDING: property=%s %s (%d occurrence(s)) e.g. %s" %
                   (self.pid, key, v["count"], json.dumps(v["example"], default=str)[:300]))
